@@ -157,15 +157,14 @@ func decoderHeadTable(e *Env) map[int]string {
 		return out
 	}
 	okOut := gate.Outcome{Kind: gate.ErrNil, Idx: 2}
-	// the read of the follow bytes: io.ReadFull(d.r, make([]byte, L))
-	var reads []*ssa.Call
-	for _, b := range fn.Blocks {
-		for _, in := range b.Instrs {
-			if c, ok := in.(*ssa.Call); ok && prov.CalleeName(&c.Call) == "io.ReadFull" && prov.Of(c.Call.Args[0]) == "param:d.r" {
-				reads = append(reads, c)
-			}
-		}
+	// the read of the follow bytes: io.ReadFull(d.r, make([]byte, L)), in the
+	// function itself or in a helper the rule tables do not know (L is then
+	// the argument the helper's size parameter stands for)
+	type followRead struct {
+		block *ssa.BasicBlock // in fn
+		n     ssa.Value       // the buffer length, a value of fn
 	}
+	var reads []followRead
 	bufLen := func(c *ssa.Call) ssa.Value {
 		var v ssa.Value = c.Call.Args[1]
 		if sl, ok := v.(*ssa.Slice); ok {
@@ -175,6 +174,35 @@ func decoderHeadTable(e *Env) map[int]string {
 			return ms.Len
 		}
 		return nil
+	}
+	for _, b := range fn.Blocks {
+		for _, in := range b.Instrs {
+			if c, ok := in.(*ssa.Call); ok && prov.CalleeName(&c.Call) == "io.ReadFull" && prov.Of(c.Call.Args[0]) == "param:d.r" {
+				reads = append(reads, followRead{b, bufLen(c)})
+			}
+		}
+	}
+	for _, hc := range unknownHelperCalls(e, fn) {
+		h := hc.Call.StaticCallee()
+		prov.PushSubst(h, &hc.Call)
+		for _, b := range h.Blocks {
+			for _, in := range b.Instrs {
+				c, ok := in.(*ssa.Call)
+				if !ok || prov.CalleeName(&c.Call) != "io.ReadFull" || prov.Of(c.Call.Args[0]) != "param:d.r" {
+					continue
+				}
+				var n ssa.Value
+				if p, isParam := bufLen(c).(*ssa.Parameter); isParam {
+					for i, hp := range h.Params {
+						if hp == p {
+							n = hc.Call.Args[i]
+						}
+					}
+				}
+				reads = append(reads, followRead{hc.Block(), n})
+			}
+		}
+		prov.PopSubst()
 	}
 	for ai := 0; ai < 32; ai++ {
 		cfg := assumeVal(tAI, strconv.Itoa(ai))
@@ -187,10 +215,10 @@ func decoderHeadTable(e *Env) map[int]string {
 		// follow bytes read under this head: the evaluated buffer lengths of the reachable reads
 		var nf []string
 		for _, r := range reads {
-			if !live[r.Block()] {
+			if !live[r.block] {
 				continue
 			}
-			if l := bufLen(r); l != nil {
+			if l := r.n; l != nil {
 				if v, ok := ctx.EvalValue(fn, l); ok {
 					nf = append(nf, v)
 					continue
